@@ -54,8 +54,25 @@ fn inject(rng: &mut Rng, w: &mut gen::GWorld, site: &str) -> bool {
         "local-audit" => w.audits.audits.values_mut().flatten().next().map(|a| a.criteria.push(bad())).is_some(),
         "local-wildcard" => w.audits.wildcard_audits.values_mut().flatten().next().map(|a| a.criteria.push(bad())).is_some(),
         "trusted" => w.audits.trusted.values_mut().flatten().next().map(|a| a.criteria.push(bad())).is_some(),
-        "lock-audit" => w.imports.audits.values_mut().flat_map(|f| f.audits.values_mut()).flatten().next().map(|a| a.criteria.push(bad())).is_some(),
-        "lock-wildcard" => w.imports.audits.values_mut().flat_map(|f| f.wildcard_audits.values_mut()).flatten().next().map(|a| a.criteria.push(bad())).is_some(),
+        "lock-audit" | "lock-wildcard" => {
+            // the undefined name may well be one imports.lock itself records for that peer (a
+            // criteria-map key of an older cargo-vet, a bad merge): it is foreign all the same
+            let recorded = rng.chance(1, 2);
+            for f in w.imports.audits.values_mut() {
+                let hit = if site == "lock-audit" {
+                    f.audits.values_mut().flatten().next().map(|a| a.criteria.push(bad())).is_some()
+                } else {
+                    f.wildcard_audits.values_mut().flatten().next().map(|a| a.criteria.push(bad())).is_some()
+                };
+                if hit {
+                    if recorded {
+                        f.criteria.insert("c-undefined".into(), CriteriaEntry { description: Some("as the peer defines it".into()), description_url: None, implies: vec![], aggregated_from: vec![] });
+                    }
+                    return true;
+                }
+            }
+            false
+        }
         "criteria-cycle" => {
             let names: Vec<String> = w.audits.criteria.keys().cloned().collect();
             if names.len() < 2 {
